@@ -95,6 +95,7 @@ def api(call, fn, *a, **kw):
 #   explained_before: seed -> a discrete-time offline object first evaluates another log and is asked to explain() it
 #   reconf: seed -> a discrete-time offline object was first configured with a k-fold sampling period and used on another log,
 #          then re-configured to the configuration of the scenario (the 'prior' mechanism of build(), for every check)
+#   late_config: True -> objects with a configuration (default unit, sampling period) are configured AFTER parse() instead of before
 #   surplus_named: seed -> the data set of a discrete-time offline evaluation carries further columns that have the names of
 #          the assertions / sub-specifications (a table the results were written back to, a CSV with output columns)
 
@@ -326,12 +327,20 @@ def new_spec(desc):
             else:
                 api('set_sampling_period', spec.set_sampling_period, p, u, tol)
     # the order of the two configuration calls is part of the configuration space
-    if desc.get('sampling_first'):
-        _sampling()
-        _unit()
+    def _configure():
+        if desc.get('sampling_first'):
+            _sampling()
+            _unit()
+        else:
+            _unit()
+            _sampling()
+    if ENV.get('late_config') is not None and (desc.get('unit') or desc.get('sampling')) and not desc.get('_config_now'):
+        # run environment 'late_config': the application parses first and configures afterwards (parse(); spec.unit = ...;
+        # set_sampling_period(...)) - bounds are durations, nothing may be fixed at parse time
+        spec._verif_pending_cfg = _configure
+        ENV_FIRED['late_config'] = 1
     else:
-        _unit()
-        _sampling()
+        _configure()
     for s in desc.get('subspecs', []):
         api('add_sub_spec', spec.add_sub_spec, s)
     spec.spec = desc['spec']
@@ -442,12 +451,14 @@ def build(desc):
         except (ApiCrash, NumericOverflow):
             pass
         api('parse', spec.parse)
+        _late_config(spec)
         if desc.get('pastify'):
             api('pastify', spec.pastify)
         _failed_use(spec, desc)
         if twin is not None:
             try:
                 api('parse', twin.parse)
+                _late_config(twin)
                 if desc.get('pastify'):
                     api('pastify', twin.pastify)
                 spec._verif_twin = twin
@@ -460,12 +471,20 @@ def build(desc):
     return spec
 
 
+def _late_config(spec):
+    fn = getattr(spec, '_verif_pending_cfg', None)
+    if fn is not None:
+        spec._verif_pending_cfg = None
+        fn()
+
+
 def build_phased(descs):
     """an application that configures all its objects first (construct, declare variables and constants, assign the text)
     and parses them afterwards: configure A, configure B, parse A, parse B"""
     specs = [new_spec(d) for d in descs]
     for spec, d in zip(specs, descs):
         api('parse', spec.parse)
+        _late_config(spec)
         if d.get('pastify'):
             api('pastify', spec.pastify)
         _failed_use(spec, d)
@@ -506,6 +525,7 @@ def _build(desc):
     if not prior:
         spec = new_spec(desc)
         api('parse', spec.parse)
+        _late_config(spec)
         if desc.get('pastify'):
             api('pastify', spec.pastify)
         return spec
@@ -524,6 +544,7 @@ def _build(desc):
         d0['subspecs'] = prior.get('subspecs') or []
     if prior.get('io') is not None:
         d0['io'] = prior['io']        # ... and with other input/output declarations, changed before the second parse()
+    d0['_config_now'] = True      # (an object with a history is configured in the order its history says)
     spec = new_spec(d0)
     api('parse', spec.parse)
     if prior.get('early_reset'):
